@@ -44,6 +44,10 @@ let handle = function
     let ex = (match does_name_exist c.rc_sentinel arr n with Some true -> "1" | Some false -> "0" | None -> "oob") in
     let id = (match get_id c.rc_sentinel arr n with Found i -> string_of_int (int_of_nat i) | NotFound -> "-1" | OutOfBounds -> "oob") in
     "ok\t" ^ show_outcome (model_call c k g n) ^ "\t" ^ ex ^ "\t" ^ id
+  | ["dispatch"; "out"; n; g] ->
+    (* snoopy_outputregistry_dispatch with CFG->output = n; last field: did the output receive the message and CFG->output_arg *)
+    let o = model_dispatch c (guards g) (coq_of_str (unhex n)) in
+    "ok\t" ^ show_outcome o ^ "\t" ^ (match o with Called _ -> "1" | _ -> "-")
   | ["byid"; k; i; g] ->
     let k = kind_of k and g = guards g and i = z_of_int (int_of_string i) in
     let nm = (match model_get_name c k g i with Some (Some s) -> (let s = str_of_coq s in if s = "" then "-" else s) | Some None -> "~" | None -> "oob") in
